@@ -9,6 +9,7 @@ the model, whose final state must equal the real one (`check_sched_case`).  The 
 the final state is the result of SOME serial execution — is evaluated in Python over all
 permutations of the operations."""
 import asyncio
+import contextvars
 import copy
 import itertools
 
@@ -73,8 +74,10 @@ def case_expr(store, locks, init, ops, log, fin, fifo=None):
 
 
 # ---- real execution -------------------------------------------------------------------------------
-def run_real(make_store, init, ops, sched):
+def run_real(make_store, init, ops, sched, inherit=False):
     """Returns (log of executed segments, final state dump, per-op outcome, fifo schedule).
+    inherit: a task started while some edit_state block is suspended inside is created with a copy of the contextvars
+    context of that block (as if the block's body had spawned it) - who holds the store lock must not depend on it.
     fifo schedule: every driver poke, followed by the segments that ran before the loop went quiet
     (the poked task's own segment first, then tasks the lock was handed to)."""
     async def go():
@@ -84,11 +87,13 @@ def run_real(make_store, init, ops, sched):
         gates = {i: [asyncio.Event() for _ in range(len(o[1]) - 1)] for i, o in enumerate(ops) if o[0] == "edit"}
         opened = {i: 0 for i in gates}
         tasks = {}
+        inside_ctx = {}
 
         async def body(i, o):
             try:
                 if o[0] == "edit":
                     async with store.edit_state() as st:
+                        inside_ctx[i] = contextvars.copy_context()
                         for k, part in enumerate(o[1]):
                             S.apply_edits_real(st, part)
                             log.append(i)
@@ -112,10 +117,16 @@ def run_real(make_store, init, ops, sched):
                 outcome[i] = "ok"
             except Exception as e:  # noqa: BLE001
                 outcome[i] = S.classify_exc(e)
+            finally:
+                inside_ctx.pop(i, None)
 
         def poke(i):
             if i not in tasks:
-                tasks[i] = asyncio.get_running_loop().create_task(body(i, ops[i]))
+                parent = next((c for j, c in inside_ctx.items() if j != i), None) if inherit else None
+                if parent is not None:
+                    tasks[i] = asyncio.get_running_loop().create_task(body(i, ops[i]), context=parent.copy())
+                else:
+                    tasks[i] = asyncio.get_running_loop().create_task(body(i, ops[i]))
             elif i in gates and opened[i] < len(gates[i]):
                 gates[i][opened[i]].set()
                 opened[i] += 1
